@@ -669,7 +669,7 @@ func (g *gen) fields(n, depth int, objectOnly bool) []*Field {
 						continue
 					}
 					for taken[strings.ToLower(snake(inner.Name))] {
-						inner.Name += "X"
+						inner.Name += "Alt"
 					}
 					taken[strings.ToLower(snake(inner.Name))] = true
 				}
@@ -698,6 +698,48 @@ func (g *gen) fields(n, depth int, objectOnly bool) []*Field {
 		out = append(out, f)
 		if sibling != nil {
 			out = append(out, sibling)
+		}
+	}
+	// protobuf names the synthetic entry message of a map field <Field>Entry: a
+	// sibling inline type that derives the same nested name (only reachable through
+	// shadow(): a top-level type called LampEntry next to a map field lamp) is two
+	// declarations of one symbol, not a valid program. The map field gives way.
+	nestedName := func(f *Field) string {
+		lt := f.Type
+		if lt.Items != nil {
+			lt = lt.Items
+		}
+		switch {
+		case lt.InlineObject != nil && lt.InlineObject.Name != "":
+			return lt.InlineObject.Name
+		case lt.InlineOneof != nil && lt.InlineOneof.Name != "":
+			return lt.InlineOneof.Name
+		case lt.InlineEnum != nil && lt.InlineEnum.Name != "":
+			return lt.InlineEnum.Name
+		case lt.InlineObject != nil || lt.InlineOneof != nil || lt.InlineEnum != nil:
+			return camel(f.Name)
+		}
+		return ""
+	}
+	for _, m := range out {
+		if m.Type.Kind != "map" {
+			continue
+		}
+		clash := func() bool {
+			for _, f := range out {
+				if n := nestedName(f); n != "" && n == camel(m.Name)+"Entry" {
+					return true
+				}
+			}
+			return false
+		}
+		for clash() {
+			delete(taken, strings.ToLower(snake(m.Name)))
+			m.Name += "Alt"
+			for taken[strings.ToLower(snake(m.Name))] {
+				m.Name += "Alt"
+			}
+			taken[strings.ToLower(snake(m.Name))] = true
 		}
 	}
 	return out
@@ -932,7 +974,7 @@ func (g *gen) entity() *Entity {
 	}
 	for _, f := range g.simpleFields(rapid.IntRange(0, 5).Draw(t, "ndata")) {
 		for taken[strings.ToLower(snake(f.Name))] {
-			f.Name += "X"
+			f.Name += "Alt"
 		}
 		taken[strings.ToLower(snake(f.Name))] = true
 		e.Data = append(e.Data, f)
@@ -943,7 +985,7 @@ func (g *gen) entity() *Entity {
 		name := g.typeName(g.curPkg.Name)
 		fname := lowerFirst(name) + "Ref"
 		for taken[strings.ToLower(snake(fname))] {
-			fname += "X"
+			fname += "Alt"
 		}
 		taken[strings.ToLower(snake(fname))] = true
 		ref := &Ref{Package: g.curPkg.Name, Name: name}
